@@ -381,7 +381,7 @@ func drawC11(t *rapid.T) *Case {
 func init() {
 	register(&CheckDef{ID: "C10", Level: "fault_enumeration", Engine: "A", Draw: drawC10,
 		Rule:     "random part: a faulty client (random bytes on the raw TCP connection; random / mutated / truncated HTTP/2 frame bytes or HTTP/1.1 garbage inside a real TLS session; abort at a random offset; injected I/O error or callback panic; 35%: back-end answers that outlive drawn -timeout-http-read / -timeout-http-write values) runs next to a concurrent control client and before a second control client; oracle: the worker process is alive and both control clients are served with correct fingerprints. Non-trivial: a fault fired or garbage was sent. Distinct: distinct controller action-label sequences.",
-		EnumRule: "enumerated part: 9360 boundary frames (every frame type 0-9 x 8 flag sets x length 0-12 x 9 pad-length octets around the frame length and around length minus the fixed fields) behind a legal preface and an open stream; then, over a fixed HTTP/1.1 and a fixed HTTP/2 session: client disconnect (FIN and RST) after EVERY byte offset; a read error (ECONNRESET / timeout / generic), a write error (EPIPE / timeout) and a deadline-setter error at EVERY I/O operation index of the proxy side of the connection; a panic at EVERY occurrence of each user callback reachable from the connection goroutine (GetConfigForClient, GetCertificate, ConnState, header injector, request handler). After each case a control client performs a full request on a fresh connection. Quick tier: stride sample; thorough tier: every index.",
+		EnumRule: "enumerated part: 9360 boundary frames (every frame type 0-9 x 8 flag sets x length 0-12 x 9 pad-length octets around the frame length and around length minus the fixed fields) behind a legal preface and an open stream; then, over a fixed HTTP/1.1 session, a fixed HTTP/2 session and a fixed HTTP/1.1 session that upgrades the protocol and sends two messages through the tunnel: client disconnect (FIN and RST) after EVERY byte offset; a read error (ECONNRESET / timeout / generic), a write error (EPIPE / timeout) and a deadline-setter error at EVERY I/O operation index of the proxy side of the connection; a panic at EVERY occurrence of each user callback reachable from the connection goroutine (GetConfigForClient, GetCertificate, ConnState, header injector, request handler). After each case a control client performs a full request on a fresh connection. Quick tier: stride sample; thorough tier: every index.",
 		Enum:     &EnumDef{Params: faultParams, Count: c10Count, Case: c10Case}})
 }
 
@@ -412,7 +412,7 @@ func c10Decode(p map[string]int, i int) c10Fault {
 		return c10Fault{Kind: "frame", Session: "h2", Idx: i}
 	}
 	i -= nBoundaryFrames
-	for _, s := range []string{"h1", "h2"} {
+	for _, s := range []string{"h1", "h2", "h1up"} {
 		n := 2 * (p[s+"_total"] + 1)
 		if i < n {
 			return c10Fault{Kind: "abort", Session: s, How: []string{"fin", "rst"}[i%2], Idx: i / 2}
@@ -436,7 +436,7 @@ func c10Decode(p map[string]int, i int) c10Fault {
 	}
 	// the callback panics of both sessions sit at the very end of the index space
 	// (the quick tier always runs the last 64 indexes)
-	for _, s := range []string{"h1", "h2"} {
+	for _, s := range []string{"h1", "h2", "h1up"} {
 		for _, site := range panicSites {
 			n := panicOccurrences(p, s, site)
 			if i < n {
@@ -479,7 +479,7 @@ func boundaryFrame(i int) Frame {
 
 func c10Count(p map[string]int) int {
 	n := nBoundaryFrames
-	for _, s := range []string{"h1", "h2"} {
+	for _, s := range []string{"h1", "h2", "h1up"} {
 		n += 2*(p[s+"_total"]+1) + len(readKinds)*p[s+"_rops"] + len(writeKinds)*p[s+"_wops"] + p[s+"_dops"]
 		for _, site := range panicSites {
 			n += panicOccurrences(p, s, site)
@@ -492,6 +492,9 @@ func c10Case(p map[string]int, i int) *Case {
 	fc := c10Decode(p, i)
 	plan := &Plan{Check: "C10", Tail: uint64(i)*2654435761 + 7}
 	cp, m := fixedSession(fc.Session, 0)
+	// an injected fault may leave the faulty client without an answer for ever (e.g. a failed
+	// SetReadDeadline inside net/http's Hijack): like a real client it gives up after a while
+	cp.RespTimeoutS = 30
 	ctlKind := []string{"h1", "h2"}[i%2]
 	c1, m1 := controlClient(ctlKind, 1, nil)                        // concurrent
 	c2, m2 := controlClient([]string{"h2", "h1"}[i%2], 2, []int{0}) // afterwards, fresh connection
@@ -623,8 +626,9 @@ func drawC10(t *rapid.T) *Case {
 		cp.Steps = []Step{{Kind: "connect"}, {Kind: "write", Pieces: [][]byte{b}}, {Kind: "close"}}
 		what = "h1 garbage"
 	case 5:
-		kind := []string{"h1", "h2"}[rapid.IntRange(0, 1).Draw(t, "sess")]
+		kind := []string{"h1", "h2", "h1up"}[rapid.IntRange(0, 2).Draw(t, "sess")]
 		cp, m = fixedSession(kind, 0)
+		cp.RespTimeoutS = 30
 		slowTags = []string{"c0-r0", "c0-r1"}
 		switch rapid.IntRange(0, 3).Draw(t, "fk") {
 		case 0:
